@@ -372,7 +372,19 @@ const WORDS: [&str; 16] = [
 
 /// The text after `PROXY UNKNOWN` (starts with a space when non-empty), no CR.
 pub fn unknown_tail(rng: &mut Rng) -> String {
-    match rng.below(12) {
+    match rng.below(14) {
+        12 | 13 => {
+            // any ASCII characters but CR (controls included), any length: whatever precedes the
+            // CR, at whatever alignment
+            let mut s = String::from(" ");
+            for _ in 0..rng.below(40) {
+                let c = if rng.chance(1, 3) { rng.below(128) as u8 } else { b'a' + rng.below(26) as u8 };
+                if c != b'\r' {
+                    s.push(c as char);
+                }
+            }
+            s
+        }
         0 => String::new(),
         1 => " ".into(),
         2 | 3 => {
@@ -481,7 +493,44 @@ pub const BAD_V6: [&str; 32] = [
 
 /// An invalid spelling for element `e` (0 keyword, 1 protocol, 2/3 addresses, 4/5 ports) of a
 /// TCP line: from the fixed pools, or a decoration of the valid value, or a random near-miss.
+/// A numeric field spelled as its value plus a multiple of 2^8 / 2^16 / 2^32 / 2^64: invalid, but
+/// accepted by a hand-rolled digit loop whose accumulator wraps around.
+pub fn wrapped_number(rng: &mut Rng, value: u64, octet: bool) -> String {
+    let m: u128 = if octet {
+        *rng.pick(&[1u128 << 8, 1 << 16, 1 << 32, 1 << 64, 3 << 8, 5 << 16])
+    } else {
+        *rng.pick(&[1u128 << 16, 1 << 32, 1 << 64, 3 << 16, 1 << 17])
+    };
+    (value as u128 + m).to_string()
+}
+
 pub fn bad_spelling(rng: &mut Rng, e: usize, v6: bool, valid: &str) -> String {
+    if e >= 2 && rng.chance(1, 8) {
+        if e >= 4 {
+            if let Ok(p) = valid.parse::<u64>() {
+                return wrapped_number(rng, p, false);
+            }
+        } else if !v6 {
+            let mut o: Vec<String> = valid.split('.').map(|x| x.to_string()).collect();
+            if o.len() == 4 {
+                let i = rng.below(4) as usize;
+                if let Ok(x) = o[i].parse::<u64>() {
+                    o[i] = wrapped_number(rng, x, true);
+                    return o.join(".");
+                }
+            }
+        } else if let Some(pos) = valid.find(|c: char| c.is_ascii_hexdigit()) {
+            // a hex group with a fifth digit: value + 0x10000
+            let mut t = valid.to_string();
+            t.insert(pos, *rng.pick(&['1', 'f', '2']));
+            let end = t[pos..].find(|c: char| !c.is_ascii_hexdigit()).map(|k| pos + k).unwrap_or(t.len());
+            if end - pos < 5 {
+                let pad = "0".repeat(5 - (end - pos));
+                t.insert_str(pos + 1, &pad);
+            }
+            return t;
+        }
+    }
     match e {
         0 => (*rng.pick(&BAD_KEYWORD)).to_string(),
         1 => (*rng.pick(&BAD_PROTOCOL)).to_string(),
@@ -946,8 +995,63 @@ pub enum Val1 {
     Tcp6 { src: [u8; 16], dst: [u8; 16], sp: u16, dp: u16 },
 }
 
+/// UNKNOWN lines whose free text carries every byte value (first, middle, last position of the
+/// text, 16 paddings that move the CR through every alignment), every 2-byte UTF-8 character and
+/// every 3-byte character with lead E1..EC as the last thing before the CR.
+pub const SWEEP_TEXT_BYTES: u64 = 256 * 3 * 16;
+pub const SWEEP_TEXT_2B: u64 = 30 * 64 * 8;
+pub const SWEEP_TEXT_3B: u64 = 12 * 64 * 64;
 pub fn sweep_count() -> u64 {
-    SWEEP_PORTS + SWEEP_OCTETS + SWEEP_GROUPS
+    SWEEP_PORTS + SWEEP_OCTETS + SWEEP_GROUPS + SWEEP_TEXT_BYTES + SWEEP_TEXT_2B + SWEEP_TEXT_3B
+}
+
+fn sweep_text_line(idx: u64, rng: &mut Rng) -> Vec<u8> {
+    let mut v = b"PROXY UNKNOWN ".to_vec();
+    let pad = |v: &mut Vec<u8>, n: u64, rng: &mut Rng| {
+        for _ in 0..n {
+            v.push(*rng.pick(b"abcxyz019 .:"));
+        }
+    };
+    if idx < SWEEP_TEXT_BYTES {
+        let b = (idx % 256) as u8;
+        let pos = (idx / 256) % 3;
+        let k = idx / 768;
+        match pos {
+            0 => {
+                pad(&mut v, k, rng);
+                v.push(b);
+            }
+            1 => {
+                v.push(b);
+                pad(&mut v, k, rng);
+            }
+            _ => {
+                pad(&mut v, k / 2 + 1, rng);
+                v.push(b);
+                pad(&mut v, k - k / 2, rng);
+            }
+        }
+    } else if idx < SWEEP_TEXT_BYTES + SWEEP_TEXT_2B {
+        let j = idx - SWEEP_TEXT_BYTES;
+        let lead = 0xC2 + (j % 30) as u8;
+        let cont = 0x80 + ((j / 30) % 64) as u8;
+        pad(&mut v, j / (30 * 64), rng);
+        v.extend_from_slice(&[lead, cont]);
+        if rng.chance(1, 4) {
+            v.push(b'x');
+        }
+    } else {
+        let j = idx - SWEEP_TEXT_BYTES - SWEEP_TEXT_2B;
+        let lead = 0xE1 + (j % 12) as u8;
+        let c1 = 0x80 + ((j / 12) % 64) as u8;
+        let c2 = 0x80 + ((j / (12 * 64)) % 64) as u8;
+        pad(&mut v, rng.below(8), rng);
+        v.extend_from_slice(&[lead, c1, c2]);
+        if rng.chance(1, 4) {
+            v.push(b'x');
+        }
+    }
+    v
 }
 
 /// The address values of sweep case `idx` (the swept field takes its idx-determined value, the
@@ -1090,8 +1194,15 @@ pub fn v1_case(stream_name: &str, idx: u64, seed: u64) -> Vec<u8> {
         "v1-mbcr" => mbcr(idx).into_bytes(),
         "v1-sweep" | "v1-sweep-s" => {
             let i = if stream_name == "v1-sweep" { idx } else { rng.below(sweep_count()) };
-            let mut v = sweep_body(i, rng).into_bytes();
-            v.extend_from_slice(b"\r\n");
+            let fields = SWEEP_PORTS + SWEEP_OCTETS + SWEEP_GROUPS;
+            let mut v = if i < fields { sweep_body(i, rng).into_bytes() } else { sweep_text_line(i - fields, rng) };
+            if i >= fields && rng.chance(1, 4) {
+                // the same line closed by CR + something else
+                v.push(b'\r');
+                v.push(*rng.pick(b"X\r\0 P\x0c\xc3"));
+            } else {
+                v.extend_from_slice(b"\r\n");
+            }
             maybe_trailer(rng, v)
         }
         _ => Vec::new(),
